@@ -166,12 +166,28 @@ class A:
         g, r = self.g, self.g.r
         x = x or r.choice(self.live)
         ops = ["add", "rem", "cadd", "crem", "addmany", "addr", "remr", "flip", "opt", "inplace", "detach", "setcow", "clear",
-               "query"]
-        w = [10, 10, 4, 4, 3, 6, 6, 6, 3, 10, 1.5, 3, 0.3, 5]
+               "query", "rdfail"]
+        w = [10, 10, 4, 4, 3, 6, 6, 6, 3, 10, 1.5, 3, 0.3, 5, 2.5]
         op = r.choices(ops, w)[0]
         if op == "setcow" and (not allow_setcow or x in self.views):
             op = "add"
         g.count("mut:" + op)
+        if op == "rdfail":
+            # a failed decode INTO a bitmap that shares containers with others, then continued use of that bitmap
+            others = [n_ for n_ in self.live if n_ != x]
+            if len(self.live) < 3 or not others or x in self.views:
+                op = "add"
+            else:
+                src = r.choice(others)
+                y = g.fresh("t")
+                g.emit("%s %s %s" % (r.choice(["clone", "cowclone", "cowclone"]), y, x))
+                self.define(y, self.keys[x], self.taint[x])
+                vals = [self.val(x) for _ in range(3)]
+                g.emit("rdfail %s %s %s %d %s" % (y, r.choice(["readfrom", "frombuffer", "fromunsafe", "unmarshal"]), src,
+                                                r.choice([1, 5, 9, 11, 13, 17, 20, 30, 40, 100, 1000, 5000]), " ".join(map(str, vals))))
+                self.live.remove(y)
+                self.check()
+                return
         if op in ("add", "rem", "cadd", "crem"):
             v = self.val(x)
             g.emit("%s %s %d" % (op, x, v))
